@@ -512,6 +512,12 @@ func (s *transactionStore) Watch(ctx context.Context, ch chan<- configapi.Transa
 				delete(s.watchers, id)
 			}
 			s.mu.Unlock()
+			// The event dispatcher may already be sending to this watcher: keep draining its channel on every exit
+			// path, or the dispatcher - and with it every other watcher of the store - blocks for ever.
+			go func() {
+				for range eventCh {
+				}
+			}()
 		}()
 
 		defer close(ch)
@@ -537,9 +543,13 @@ func (s *transactionStore) Watch(ctx context.Context, ch chan<- configapi.Transa
 					if ctx.Err() != nil {
 						return
 					}
-					ch <- configapi.TransactionEvent{
+					replayed := configapi.TransactionEvent{
 						Type:        configapi.TransactionEvent_REPLAYED,
 						Transaction: *transaction,
+					}
+					select {
+					case ch <- replayed:
+					case <-ctx.Done():
 					}
 				}
 			} else {
@@ -583,9 +593,13 @@ func (s *transactionStore) Watch(ctx context.Context, ch chan<- configapi.Transa
 						transaction := entry.Value
 						transaction.Version = uint64(entry.Version)
 						transaction.ID.Index = configapi.Index(entry.Index)
-						ch <- configapi.TransactionEvent{
+						replayed := configapi.TransactionEvent{
 							Type:        configapi.TransactionEvent_REPLAYED,
 							Transaction: *transaction,
+						}
+						select {
+						case ch <- replayed:
+						case <-ctx.Done():
 						}
 					}
 				}
@@ -595,12 +609,11 @@ func (s *transactionStore) Watch(ctx context.Context, ch chan<- configapi.Transa
 		for {
 			select {
 			case event := <-eventCh:
-				ch <- event
+				select {
+				case ch <- event:
+				case <-ctx.Done():
+				}
 			case <-ctx.Done():
-				go func() {
-					for range eventCh {
-					}
-				}()
 				return
 			}
 		}
